@@ -10,7 +10,7 @@ use vcore::engine::{Property, Source, SubCheck};
 pub fn property() -> Property {
     Property {
         id: "C19",
-        rule: "(1) fast-forward: a case is a genuine singleton spend — the real singleton_top_layer_v1_1 program curried with a random singleton struct and an inner puzzle (q . conditions) holding exactly one odd CREATE_COIN plus 0-8 other conditions (even outputs, announcements, assertions of a helper spend's announcements, locks, hints of every shape, REMARKs, AGG_SIGs, messages), a consistent lineage proof and coin, or one of the two recorded ff-tests spends — together with a rebase target (new parent's parent, odd new-parent and new-coin amounts of every encoding length 1..9 bytes), an allocator representation mode, and ONE of 23 single-field corruptions that provably make the input non-genuine. Non-trivial = fast_forward_singleton returned Ok on the genuine input, the original spend runs through run_spendbundle, and the rewritten spend was re-run and compared; distinct by (puzzle, rewritten solution, coin). (2) dedup pairs: (L, L') for the same coin (tagged-identity puzzle, the list is the solution), L valid by construction next to a helper spend, L' = L under one of 15 mutations (atom changed, bytes moved across an atom or condition boundary, hint shape, memo added, REMARK argument, swap, integer re-encoded, ...). Non-trivial = both accepted in MEMPOOL_MODE|COMPUTE_FINGERPRINT and both ELIGIBLE_FOR_DEDUP (the premise could be examined); distinct by (L, L', coin). (3) eligibility: bundles of the shared generator and targeted one-coin lists with AGG_SIG / message / created-value features; non-trivial = accepted bundle with at least one condition.",
+        rule: "(1) fast-forward: a case is a genuine singleton spend — the real singleton_top_layer_v1_1 program curried with a random singleton struct and an inner puzzle (q . conditions) holding exactly one odd CREATE_COIN plus 0-8 other conditions (even outputs, announcements, assertions of a helper spend's announcements, locks, hints of every shape, REMARKs, AGG_SIGs, messages), a consistent lineage proof and coin, or one of the two recorded ff-tests spends — together with a rebase target (new parent's parent, odd new-parent and new-coin amounts of every encoding length 1..9 bytes), an allocator representation mode, and ONE of 27 corruptions that provably make the input non-genuine (23 single-field ones; 4 in which the three coins carry the puzzle hash of a sibling singleton that differs from the reveal in one curried component). Non-trivial = fast_forward_singleton returned Ok on the genuine input, the original spend runs through run_spendbundle, and the rewritten spend was re-run and compared; distinct by (puzzle, rewritten solution, coin). (2) dedup pairs: (L, L') for the same coin (tagged-identity puzzle, the list is the solution), L valid by construction next to a helper spend, L' = L under one of 15 mutations (atom changed, bytes moved across an atom or condition boundary, hint shape, memo added, REMARK argument, swap, integer re-encoded, ...). Non-trivial = both accepted in MEMPOOL_MODE|COMPUTE_FINGERPRINT and both ELIGIBLE_FOR_DEDUP (the premise could be examined); distinct by (L, L', coin). (3) eligibility: bundles of the shared generator and targeted one-coin lists with AGG_SIG / message / created-value features; non-trivial = accepted bundle with at least one condition.",
         assumptions: &[
             "clvmr executes the singleton program correctly; run_spendbundle's verdict on the helper-accompanied bundle is taken as 'the spend runs' (condition rules themselves are decided by C01)",
             "puzzle hashes, coin ids and curried hashes are computed by the harness (reference tree hash, sha256), never by the code under test",
@@ -43,6 +43,10 @@ pub fn property() -> Property {
                     "corrupt:struct-mod-hash-wrong-consistent",
                     "corrupt:outer-program-not-singleton-consistent",
                     "corrupt:eve-proof-genuine",
+                    "corrupt:coins-carry-hash-of-sibling-puzzle:other-launcher-puzzle-hash",
+                    "corrupt:coins-carry-hash-of-sibling-puzzle:other-launcher-id",
+                    "corrupt:coins-carry-hash-of-sibling-puzzle:other-inner-puzzle",
+                    "corrupt:coins-and-lineage-follow-sibling-puzzle:other-launcher-puzzle-hash",
                 ],
             },
             SubCheck {
